@@ -305,6 +305,56 @@ def Net.loopless (n : Net) (ns : List (List Rat)) (cutoff : Rat) : Prob :=
     rows := n.fba.rows ++ n.internal.flatMap (n.looplessRows M G) ++ ns.zipIdx.map (n.nullRow cutoff),
     obj := n.objExpr, dirMax := n.dirMax }
 
+/-! ### the matrix form the samplers work on (`util.array.constraint_matrices`, `HRSampler.__build_problem`) -/
+
+/-- coefficient of the variable `w` in a linear expression -/
+def coefAt (co : List (V × Rat)) (w : V) : Rat := (co.map (fun p => if p.1 = w then p.2 else 0)).sum
+
+/-- a row as a dense vector over the variables of the problem, in their order -/
+def Prob.dense (p : Prob) (co : List (V × Rat)) : List Rat := p.vars.map (fun w => coefAt co w.v)
+
+/-- `(ub - lb) < zero_tol` for a constraint or a variable (an infinite side is never "equal") -/
+def isEq (tol : Rat) (lb ub : EB) : Bool :=
+  match lb, ub with
+  | .fin l, .fin u => decide (u - l < tol)
+  | _, _ => false
+
+structure SamplerProb where
+  equalities : List (List Rat)
+  b : List Rat
+  inequalities : List (List Rat)
+  bounds : List (EB × EB)
+  fixed : List Bool
+  varBounds : List (EB × EB)
+  homogeneous : Bool
+
+/-- unit row of the `k`-th variable -/
+def unitRow (n k : Nat) : List Rat := (List.range n).map (fun j => if j = k then 1 else 0)
+
+/-- `HRSampler.__build_problem` on top of `constraint_matrices(model, zero_tol = tol)`: rows whose bounds coincide (within `tol`) are equalities
+with right-hand side `lb` (snapped to 0 when `|lb| ≤ tol`), the other rows are inequalities with their bounds; variables whose bounds coincide
+are fixed, and the fixed ones with `|ub| > tol` become additional equalities `x_k = ub`; `homogeneous` iff every right-hand side is below `tol`
+in magnitude and no such variable exists -/
+def Prob.sampler (p : Prob) (tol : Rat) : SamplerProb :=
+  let eqRows := p.rows.filter (fun r => isEq tol r.lb r.ub)
+  let ineqRows := p.rows.filter (fun r => !isEq tol r.lb r.ub)
+  let b0 := eqRows.map (fun r => if tol < absR (EB.toRat r.lb) then EB.toRat r.lb else 0)
+  let fixed := p.vars.map (fun w => isEq tol w.lb w.ub)
+  let fnz := (p.vars.zipIdx.filter (fun q => isEq tol q.1.lb q.1.ub && decide (tol < absR (EB.toRat q.1.ub))))
+  { equalities := eqRows.map (fun r => p.dense r.co) ++ fnz.map (fun q => unitRow p.vars.length q.2),
+    b := b0 ++ fnz.map (fun q => EB.toRat q.1.ub),
+    inequalities := ineqRows.map (fun r => p.dense r.co),
+    bounds := ineqRows.map (fun r => (r.lb, r.ub)),
+    fixed := fixed,
+    varBounds := p.vars.map (fun w => (w.lb, w.ub)),
+    homogeneous := b0.all (fun q => decide (absR q < tol)) && fnz.isEmpty }
+
+/-- a user constraint over flux expressions: `lb ≤ Σ c_i (forward_i − reverse_i) ≤ ub` -/
+def extraRow (name : String) (lb ub : EB) (co : List (Nat × Rat)) : Row := ⟨name, lb, ub, co.flatMap (fun q => flux q.1 q.2)⟩
+
+/-- the flux-balance problem with user constraints over fluxes appended -/
+def Net.fbaWith (n : Net) (extra : List Row) : Prob := { n.fba with rows := n.fba.rows ++ extra }
+
 /-- the name the solver sees (`old`: the name the analysis gives its old-objective variable) -/
 def Net.vname (n : Net) (old : String) : V → String
   | .fwd i => (n.rx i).id
